@@ -602,3 +602,13 @@ func TestProp(t *testing.T) {
 }
 
 func TestReplay(t *testing.T) { pbt.Replay(t, rec) }
+
+// FuzzXMP: native coverage-guided search over the generator's choice bytes (thorough tier).
+func FuzzXMP(f *testing.F) {
+	f.Fuzz(rapid.MakeFuzz(func(rt *rapid.T) {
+		c := genCase(opts{})(rt)
+		if fl := pbt.Filter(rec, eval(c)); fl != nil {
+			rt.Fatalf("%s", fl.Msg)
+		}
+	}))
+}
